@@ -68,3 +68,55 @@ let run (id : string) (ops : string list) (out : out_channel) =
     | _ -> failwith ("Lgre op: " ^ op)) ops
 
 let registered = Registry.register "Lgre" run
+
+(* ---- extraction cross-check inside Coq (see c18.ml): every model call this glue makes for the ops of a
+   sampled case, restated as a Gallina term and recomputed by vm_compute, must give the value the
+   extracted code computed here. *)
+let coq_gre (g : M.gre) =
+  Printf.sprintf "(mkGre %s %s %s %s %s %s %s %s %s %s %s %s %s %s %s %s %s %s)" (coq_bool g.M.g_csump) (coq_bool g.M.g_routp)
+    (coq_bool g.M.g_keyp) (coq_bool g.M.g_seqp) (coq_bool g.M.g_ssr) (coq_bool g.M.g_ackp) (coq_z g.M.g_recur) (coq_z g.M.g_flags)
+    (coq_z g.M.g_version) (coq_z g.M.g_proto) (coq_z g.M.g_csum) (coq_z g.M.g_offset) (coq_z g.M.g_key) (coq_z g.M.g_seq) (coq_z g.M.g_ack)
+    (coq_list (fun (r : M.sre) -> Printf.sprintf "mkSre %s %s %s %s" (coq_z r.M.s_af) (coq_z r.M.s_off) (coq_z r.M.s_len) (coq_zlist r.M.s_info)) g.M.g_routing)
+    (coq_zlist g.M.g_contents) (coq_zlist g.M.g_payload)
+let to_coq (idx : int) (ops : string list) (out : out_channel) =
+  let n = ref 0 in
+  let name () = incr n; Printf.sprintf "sample_%d_%d" idx !n in
+  let small h = String.length h <= 300 && not (String.length h > 0 && h.[0] = '*') in
+  let ex_dec (g0s : string) (g0 : M.gre) (b : BinNums.coq_Z list) =
+    let ((g, r), tr) = M.gre_decode_into g0 b in
+    coq_example_named out (name ())
+      (Printf.sprintf "(let r := gre_decode_into %s %s in (r, gre_next (fst (fst r)), gre_render_panics (fst (fst r))))" g0s (coq_zlist b))
+      (Printf.sprintf "(%s, %s, %s, %s, %s)" (coq_gre g) (coq_outcome coq_unit r) (coq_bool tr) (coq_z (M.gre_next g)) (coq_bool (M.gre_render_panics g)));
+    g in
+  let ex_ser (g : M.gre) (p : BinNums.coq_Z list) (fix : bool) (csum : bool) (junk : string) (junkv : BinNums.coq_Z list) =
+    let r = M.gre_serialize g p fix csum junkv in
+    coq_example_named out (name ()) (Printf.sprintf "gre_serialize %s %s %s %s %s" (coq_gre g) (coq_zlist p) (coq_bool fix) (coq_bool csum) junk)
+      (coq_pair (coq_outcome coq_zlist) coq_gre r); r in
+  Stdlib.List.iter (fun op ->
+    let (nm, a) = args_of op in
+    let arg i = if i < Array.length a then a.(i) else "" in
+    if !n < 6 then
+    match nm with
+    | "nlt" -> let x = zs (arg 0) in
+      coq_example_named out (name ()) ("ethertype_layertype " ^ coq_z x) (coq_z (M.ethertype_layertype x))
+    | "dec" when small (arg 0) -> ignore (ex_dec "gre_fresh" M.gre_fresh (bytes_of_hex (arg 0)))
+    | "dec2" when small (arg 0) && small (arg 1) ->
+      let g0 = ex_dec "gre_fresh" M.gre_fresh (bytes_of_hex (arg 0)) in
+      ignore (ex_dec (coq_gre g0) g0 (bytes_of_hex (arg 1)))
+    | "ser" | "nser" ->
+      let (g, fcd, payload) =
+        if nm = "ser" then (let ((g, _), _) = M.gre_decode_into M.gre_fresh (bytes_of_hex (arg 0)) in (g, arg 1, arg 2))
+        else (build (arg 2), arg 0, arg 1) in
+      let (fix, csum, mode) = flags fcd in
+      if small payload && Stdlib.List.length g.M.g_contents + Stdlib.List.length g.M.g_payload <= 300 then
+        ignore (ex_ser g (payload_of payload) fix csum (if mode = 1 then "(repeat 170%Z 8192%nat)" else "[]") (junk_of mode 8192))
+    | "rt" | "nrt" ->
+      let (g, payload) =
+        if nm = "rt" then (let ((g, _), _) = M.gre_decode_into M.gre_fresh (bytes_of_hex (arg 0)) in (g, arg 1))
+        else (build (arg 1), arg 0) in
+      if small payload && Stdlib.List.length g.M.g_contents + Stdlib.List.length g.M.g_payload <= 300 then
+        (match ex_ser g (payload_of payload) true true "[]" [] with
+         | (Base.Ok b, _) -> ignore (ex_dec "gre_fresh" M.gre_fresh b)
+         | _ -> ())
+    | _ -> ()) ops
+let registered_coq = Registry.register_coq "Lgre" ("From GP Require Import Base N6Lib LgreModel.\n", to_coq)
